@@ -322,7 +322,12 @@ int exec_special_op(World &w, const Op &op) {
             if (ti >= core) w.cnt.inc("version.cross_triples");
             bool can_read = x == lib[0] && y <= lib[1];
             bool can_write = x == lib[0] && y == lib[1] && z == lib[2];
-            for (int mode = 0; mode < 2 && !w.failed(); mode++) for (int force = 0; force < 2 && !w.failed(); force++) {
+            // the four attempts on one stored version are made in a seeded order: what an earlier attempt leaves behind in the process
+            // (a refused open must leave nothing) then meets every kind of next attempt
+            int order4[4] = {0, 1, 2, 3};
+            for (int i = 3; i > 0; i--) { int j = (int) r.below((uint64_t) i + 1); std::swap(order4[i], order4[j]); }
+            for (int oi = 0; oi < 4 && !w.failed(); oi++) {
+                int mode = order4[oi] >> 1, force = order4[oi] & 1;
                 bool expect = force ? true : (mode == 0 ? can_read : can_write);
                 std::string err;
                 bool got = try_open(cp, mode == 0 ? FileMode::ReadOnly : FileMode::ReadWrite, force ? OpenFlags::Force : OpenFlags::None, &err);
